@@ -28,6 +28,7 @@ type Keys struct {
 	buf       []byte      // Keys read and waiting to be used.
 	matched   []rune      // Keys that have been successfully matched against a bind.
 	macroKeys []rune      // Keys that have been fed by a macro.
+	fed       bool        // The keys used by the current command have been fed by a macro.
 	mustWait  bool        // Keys are in the stack, but we must still read stdin.
 	waiting   bool        // Currently waiting for keys on stdin.
 	reading   bool        // Currently reading keys out of the main loop.
@@ -107,6 +108,7 @@ func PopKey(keys *Keys) (key byte, empty bool) {
 	case len(keys.macroKeys) > 0:
 		key = byte(keys.macroKeys[0])
 		keys.macroKeys = keys.macroKeys[1:]
+		keys.fed = true
 	case len(keys.buf) > 0:
 		key = keys.buf[0]
 		keys.buf = keys.buf[1:]
@@ -204,6 +206,7 @@ func PopForce(keys *Keys) (key byte, empty bool) {
 	case len(keys.macroKeys) > 0:
 		key = byte(keys.macroKeys[0])
 		keys.macroKeys = keys.macroKeys[1:]
+		keys.fed = true
 	case len(keys.buf) > 0:
 		key = keys.buf[0]
 		keys.buf = keys.buf[1:]
@@ -225,6 +228,12 @@ func MacroKeys(keys *Keys) []rune {
 		return nil
 	}
 
+	// Keys fed by a macro (or by a command, in place of its own keys) have
+	// not been typed: what is recorded is the keys that have produced them.
+	if keys.fed {
+		return nil
+	}
+
 	return keys.matched
 }
 
@@ -232,6 +241,7 @@ func MacroKeys(keys *Keys) []rune {
 func FlushUsed(keys *Keys) {
 	keys.mutex.Lock()
 	keys.matched = nil
+	keys.fed = false
 	defer keys.mutex.Unlock()
 }
 
@@ -260,6 +270,7 @@ func (k *Keys) ReadKey() (key rune, isAbort bool) {
 	case len(k.macroKeys) > 0:
 		key = k.macroKeys[0]
 		k.macroKeys = k.macroKeys[1:]
+		k.fed = true
 
 	case len(k.buf) > 0:
 		// Keys that were read along with the command's own
@@ -319,6 +330,7 @@ func (k *Keys) Pop() (key byte, empty bool) {
 	case len(k.macroKeys) > 0:
 		key = byte(k.macroKeys[0])
 		k.macroKeys = k.macroKeys[1:]
+		k.fed = true
 	case len(k.buf) > 0:
 		key = k.buf[0]
 		k.buf = k.buf[1:]
